@@ -69,7 +69,7 @@ P = {
 }
 
 # properties whose check is built and claimed
-CLAIMED = ["C01"]
+CLAIMED = ["C01", "C02", "C07", "C11", "C18"]
 
 def main():
     checks = []
